@@ -16,60 +16,80 @@
 (***************************************************************************)
 EXTENDS Integers, Sequences, FiniteSets, TLC, Json
 
-CONSTANTS Prog,     \* sequence of [op, name, name2, fd, n, trunc, creat]
-          OldLen,   \* bytes of the old serialisation; 0 = there was no file
-          NewLen    \* bytes of the new serialisation
+CONSTANTS Prog,     \* sequence of [op, name, name2, fd, n, trunc, creat]; a write's n is the share of the new
+                    \* serialisation it carried when observed (scaled to the generation's length, see WriteLen)
+          OldLen,   \* bytes of the serialisation found at the very beginning; 0 = there was no file
+          NewLen,   \* bytes of the serialisation the first shutdown writes
+          NextLens  \* lengths of the serialisations later shutdowns write (the router restarts after a kill or
+                    \* a completed shutdown, loads the file, runs, and shuts down again with the same program)
 ASSUME NewLen > 0
+MaxGen == 1 + Len(NextLens)
+LenOf(v) == IF v = 0 THEN OldLen ELSE IF v = 1 THEN NewLen ELSE NextLens[v - 1]
 
 Names == ({"state"} \cup {Prog[i].name : i \in 1..Len(Prog)} \cup {Prog[i].name2 : i \in 1..Len(Prog)}) \ {""}
-MaxIno == 1 + Len(Prog)
+MaxIno == 1 + Len(Prog) * MaxGen
 
 VARIABLES dir,    \* name -> inode number, 0 = no such file
-          ino,    \* inode number -> [ver, len]
+          ino,    \* inode number -> [ver, len, stale]: the first len bytes of version ver's serialisation, followed by
+                  \* stale bytes of whatever the file held before (ver = -1: nothing written yet)
           fds,    \* fd -> [ino, off], ino 0 = closed
-          pc, killed, nextIno, act
-vars == <<dir, ino, fds, pc, killed, nextIno, act>>
+          pc, killed, nextIno,
+          gen,      \* the shutdown being executed writes version gen
+          loaded,   \* the version the running router loaded at its start (-1: no file, empty state)
+          refused,  \* a start found a file it could not load
+          act
+vars == <<dir, ino, fds, pc, killed, nextIno, gen, loaded, refused, act>>
 
 Fds == {Prog[i].fd : i \in 1..Len(Prog)}
 
 Init ==
   /\ dir = [nm \in Names |-> IF nm = "state" /\ OldLen > 0 THEN 1 ELSE 0]
-  /\ ino = [i \in 1..MaxIno |-> IF i = 1 /\ OldLen > 0 THEN [ver |-> "old", len |-> OldLen] ELSE [ver |-> "none", len |-> 0]]
+  /\ ino = [i \in 1..MaxIno |-> IF i = 1 /\ OldLen > 0 THEN [ver |-> 0, len |-> OldLen, stale |-> 0] ELSE [ver |-> -1, len |-> 0, stale |-> 0]]
   /\ fds = [f \in Fds |-> [ino |-> 0, off |-> 0]]
   /\ pc = 1 /\ killed = FALSE /\ nextIno = 2
+  /\ gen = 1 /\ loaded = (IF OldLen > 0 THEN 0 ELSE -1) /\ refused = FALSE
   /\ act = [name |-> "init"]
 
 Cur == Prog[pc]
 Running == ~killed /\ pc <= Len(Prog)
 
-(* what a prefix of k more bytes written through fd does to the file: the   *)
-(* bytes are the new serialisation in order (checked concretely by the      *)
-(* driver); writing anywhere else than at the end of a "new" prefix makes   *)
-(* the content garbage *)
+(* the length of a write call in this generation: the observed program wrote NewLen bytes in its calls; a later
+   generation hands over LenOf(gen) bytes split in the same proportion (the last call takes the rest) *)
+WriteLen(i) ==
+  LET isLast == \A j \in (i + 1)..Len(Prog) : Prog[j].op # "write"
+      before == LET RECURSIVE Sum(_) Sum(j) == IF j = 0 THEN 0 ELSE (IF Prog[j].op = "write" THEN (Prog[j].n * LenOf(gen)) \div NewLen ELSE 0) + Sum(j - 1) IN Sum(i - 1)
+  IN IF isLast THEN LenOf(gen) - before ELSE (Prog[i].n * LenOf(gen)) \div NewLen
+
+(* what k more bytes written through fd do to the file: the bytes are version gen's serialisation in order (checked
+   concretely by the driver); they overwrite what is there from the fd's offset on, anything beyond stays *)
 Written(f, k) ==
   LET i == fds[f].ino
       c == ino[i]
+      total == c.len + c.stale
+      off == fds[f].off
   IN IF k = 0 THEN ino
-     ELSE IF c.ver \in {"new", "none"} /\ fds[f].off = c.len /\ (c.ver = "new" \/ c.len = 0)
-          THEN [ino EXCEPT ![i] = [ver |-> "new", len |-> c.len + k]]
-          ELSE [ino EXCEPT ![i] = [ver |-> "garbage", len |-> c.len + k]]
+     ELSE IF off = 0 \/ (c.ver = gen /\ off = c.len)
+          THEN LET newlen == off + k
+                   rest == IF total > newlen THEN total - newlen ELSE 0
+               IN [ino EXCEPT ![i] = [ver |-> gen, len |-> newlen, stale |-> rest]]
+          ELSE [ino EXCEPT ![i] = [ver |-> -2, len |-> 0, stale |-> total + k]]    \* garbage
 
 DoOpen ==
   /\ Cur.op = "open"
   /\ IF dir[Cur.name] = 0
      THEN IF Cur.creat
           THEN /\ dir' = [dir EXCEPT ![Cur.name] = nextIno]
-               /\ ino' = [ino EXCEPT ![nextIno] = [ver |-> "none", len |-> 0]]
+               /\ ino' = [ino EXCEPT ![nextIno] = [ver |-> -1, len |-> 0, stale |-> 0]]
                /\ fds' = [fds EXCEPT ![Cur.fd] = [ino |-> nextIno, off |-> 0]]
                /\ nextIno' = nextIno + 1
           ELSE UNCHANGED <<dir, ino, fds, nextIno>>     \* ENOENT
-     ELSE /\ ino' = IF Cur.trunc THEN [ino EXCEPT ![dir[Cur.name]] = [ver |-> "none", len |-> 0]] ELSE ino
+     ELSE /\ ino' = IF Cur.trunc THEN [ino EXCEPT ![dir[Cur.name]] = [ver |-> -1, len |-> 0, stale |-> 0]] ELSE ino
           /\ fds' = [fds EXCEPT ![Cur.fd] = [ino |-> dir[Cur.name], off |-> 0]]
           /\ UNCHANGED <<dir, nextIno>>
 DoWrite ==
   /\ Cur.op = "write" /\ fds[Cur.fd].ino # 0
-  /\ ino' = Written(Cur.fd, Cur.n)
-  /\ fds' = [fds EXCEPT ![Cur.fd].off = @ + Cur.n]
+  /\ ino' = Written(Cur.fd, WriteLen(pc))
+  /\ fds' = [fds EXCEPT ![Cur.fd].off = @ + WriteLen(pc)]
   /\ UNCHANGED <<dir, nextIno>>
 DoSync  == Cur.op = "fsync" /\ UNCHANGED <<dir, ino, fds, nextIno>>
 DoClose == Cur.op = "close" /\ fds' = [fds EXCEPT ![Cur.fd] = [ino |-> 0, off |-> 0]] /\ UNCHANGED <<dir, ino, nextIno>>
@@ -82,46 +102,57 @@ DoUnlink == Cur.op = "unlink" /\ dir' = [dir EXCEPT ![Cur.name] = 0] /\ UNCHANGE
 Step ==
   /\ Running
   /\ (DoOpen \/ DoWrite \/ DoSync \/ DoClose \/ DoRename \/ DoUnlink)
-  /\ pc' = pc + 1 /\ UNCHANGED killed
-  /\ act' = [name |-> "step", pc |-> pc, op |-> Cur.op]
+  /\ pc' = pc + 1 /\ UNCHANGED <<killed, gen, loaded, refused>>
+  /\ act' = [name |-> "step", pc |-> pc, op |-> Cur.op, gen |-> gen]
 
 (* the process dies between two calls *)
 Kill ==
   /\ Running
   /\ killed' = TRUE
-  /\ act' = [name |-> "kill", pc |-> pc, part |-> "none"]
-  /\ UNCHANGED <<dir, ino, fds, pc, nextIno>>
+  /\ act' = [name |-> "kill", pc |-> pc, part |-> "none", gen |-> gen]
+  /\ UNCHANGED <<dir, ino, fds, pc, nextIno, gen, loaded, refused>>
 
 (* the process dies inside a write: only a proper, non-empty prefix of the call's bytes is in the file *)
 KillInWrite ==
-  /\ Running /\ Cur.op = "write" /\ fds[Cur.fd].ino # 0 /\ Cur.n > 1
+  /\ Running /\ Cur.op = "write" /\ fds[Cur.fd].ino # 0 /\ WriteLen(pc) > 1
   /\ \E part \in {"first", "mid", "allbutone"} :
-       LET k == CASE part = "first" -> 1 [] part = "mid" -> Cur.n \div 2 [] OTHER -> Cur.n - 1 IN
-       /\ k >= 1 /\ k < Cur.n
+       LET k == CASE part = "first" -> 1 [] part = "mid" -> WriteLen(pc) \div 2 [] OTHER -> WriteLen(pc) - 1 IN
+       /\ k >= 1 /\ k < WriteLen(pc)
        /\ ino' = Written(Cur.fd, k)
-       /\ act' = [name |-> "kill", pc |-> pc, part |-> part]
+       /\ act' = [name |-> "kill", pc |-> pc, part |-> part, gen |-> gen]
   /\ killed' = TRUE
-  /\ UNCHANGED <<dir, fds, pc, nextIno>>
+  /\ UNCHANGED <<dir, fds, pc, nextIno, gen, loaded, refused>>
 
-Next == Step \/ Kill \/ KillInWrite
+(* What a start finds: the version the state file holds completely, -1 for no file, -2 for a file it cannot read *)
+Found ==
+  LET i == dir["state"] IN
+  IF i = 0 THEN -1
+  ELSE IF ino[i].ver >= 0 /\ ino[i].stale = 0 /\ ino[i].len = LenOf(ino[i].ver) THEN ino[i].ver
+  ELSE -2
+
+(* the router starts again - after a kill or after a completed shutdown - loads the file and will shut down once more *)
+Restart ==
+  /\ killed \/ pc > Len(Prog)
+  /\ gen < MaxGen /\ ~refused
+  /\ IF Found = -2
+     THEN refused' = TRUE /\ UNCHANGED <<gen, loaded, pc, killed, fds>>
+     ELSE /\ loaded' = Found /\ gen' = gen + 1 /\ pc' = 1 /\ killed' = FALSE
+          /\ fds' = [f \in Fds |-> [ino |-> 0, off |-> 0]]
+          /\ UNCHANGED refused
+  /\ act' = [name |-> "restart", found |-> Found, gen |-> gen]
+  /\ UNCHANGED <<dir, ino, nextIno>>
+
+Next == Step \/ Kill \/ KillInWrite \/ Restart
 Spec == Init /\ [][Next]_vars
 
-(* What the next start finds. *)
-Load ==
-  LET i == dir["state"] IN
-  IF i = 0 THEN "absent"
-  ELSE IF ino[i].ver = "old" /\ ino[i].len = OldLen THEN "old"
-  ELSE IF ino[i].ver = "new" /\ ino[i].len = NewLen THEN "new"
-  ELSE "corrupt"
-
-Previous == IF OldLen > 0 THEN "old" ELSE "absent"
-
-(* C18: wherever the kill hits, the next start finds the complete previous or the complete new state *)
-Recoverable == killed => Load \in {Previous, "new"}
+(* C18: wherever the kill hits, the next start finds the complete state the router had loaded or the complete new one *)
+Recoverable == killed => Found \in {loaded, gen}
 (* the same at every moment (an observer that copies the file while the router shuts down) *)
-AlwaysLoadable == Load \in {Previous, "new"}
+AlwaysLoadable == Found \in {loaded, gen}
 (* a shutdown that is not disturbed stores the new state *)
-SaveCompletes == (~killed /\ pc > Len(Prog)) => Load = "new"
+SaveCompletes == (~killed /\ pc > Len(Prog)) => Found = gen
+(* no start ever refuses the file *)
+NeverRefuses == ~refused
 
-DumpEdge == PrintT("EDGE " \o ToJson(<<dir, ino, pc, killed>>) \o "\t" \o ToJson(act') \o "\t" \o ToJson(<<dir', ino', pc', killed'>>))
+DumpEdge == PrintT("EDGE " \o ToJson(<<dir, ino, pc, killed, gen, loaded, refused>>) \o "\t" \o ToJson(act') \o "\t" \o ToJson(<<dir', ino', pc', killed', gen', loaded', refused'>>))
 =============================================================================
